@@ -12,8 +12,9 @@ Model of the parameter-list pipeline of pydoctor (property C14):
 * CPython's reading of a parameter list (`parameters` / `star_etc` / `kwds` rules of the PEG grammar)
   at token level: `parseSig`.
 
-Defaults and annotation expressions are opaque atoms (their rendering is property C15). The only
-structure kept on annotations is what this code looks at: string quoting (`unstring_annotation`)
+Defaults are opaque atoms and so are the string-free leaves of annotations (their rendering is
+property C15). The structure kept on annotations is what this code looks at: string constants,
+subscripts and the `Literal` exception (`astutils.unstring_annotation` / `_AnnotationStringParser`),
 and the literal `None` (`is_none_literal`).  Parameter names are atoms too (`Nat`); CPython's parser
 guarantees they are identifiers, which is all `Parameter.__init__` checks about them.
 
@@ -28,23 +29,63 @@ inductive Kind | posOnly | posOrKw | varPos | kwOnly | varKw
 def Kind.toNat : Kind → Nat
   | .posOnly => 0 | .posOrKw => 1 | .varPos => 2 | .kwOnly => 3 | .varKw => 4
 
-/-- Annotation expressions: an opaque atom, the constant `None`, a string constant whose content
-parses as the expression `inner`, or a string constant whose content is not an expression. -/
+/-- Annotation expressions, with the structure `astutils._AnnotationStringParser` looks at:
+names (the name `Literal` apart), the constant `None`, string constants (whose content parses as one
+expression `inner`, or does not: `badStr`), attributes (attribute name `0` stands for `Literal`),
+subscripts, and two kinds of nodes with two expression children that go through `generic_visit`
+(a 2-tuple and `a | b`). Every other string-free expression is an opaque `atom`. -/
 inductive AnnE
   | atom (a : Nat)
+  | literalName
   | noneLit
   | str (inner : AnnE)
   | badStr (a : Nat)
+  | attr (value : AnnE) (name : Nat)
+  | sub (value slice : AnnE)
+  | tup (a b : AnnE)
+  | bor (a b : AnnE)
   deriving DecidableEq, Repr, Inhabited
 
-/-- `_AnnotationStringParser().visit(node)`: `none` = `SyntaxError` raised from the innermost string. -/
+/-- `isinstance(value, ast.Name) and value.id == 'Literal'` or
+`isinstance(value, ast.Attribute) and value.attr == 'Literal'` (any prefix: `typing.`, `t.`, `te.` …). -/
+def AnnE.isLiteralRef : AnnE → Bool
+  | .literalName => true
+  | .attr _ 0 => true
+  | _ => false
+
+/-- `_AnnotationStringParser().visit(node)`: `none` = `SyntaxError` raised by `_parse_string`.
+`visit_Constant` parses a string and visits the result; `visit_Subscript` visits the value first and
+keeps the slice verbatim when the *visited* value is `Literal` / `….Literal`; everything else is
+`generic_visit` (children in order). -/
 def AnnE.unstringE : AnnE → Option AnnE
   | .atom a => some (.atom a)
+  | .literalName => some .literalName
   | .noneLit => some .noneLit
   | .str e => e.unstringE
   | .badStr _ => none
+  | .attr v n =>
+    match v.unstringE with
+    | some v' => some (.attr v' n)
+    | none => none
+  | .sub v s =>
+    match v.unstringE with
+    | none => none
+    | some v' =>
+      if v'.isLiteralRef then some (.sub v' s)
+      else match s.unstringE with
+        | some s' => some (.sub v' s')
+        | none => none
+  | .tup a b =>
+    match a.unstringE, b.unstringE with
+    | some a', some b' => some (.tup a' b')
+    | _, _ => none
+  | .bor a b =>
+    match a.unstringE, b.unstringE with
+    | some a', some b' => some (.bor a' b')
+    | _, _ => none
 
-/-- `astutils.unstring_annotation`: on `SyntaxError` the *original* node is returned unchanged. -/
+/-- `astutils.unstring_annotation`: on `SyntaxError` the *original* node is returned unchanged
+(and a warning is reported). -/
 def AnnE.unstring (e : AnnE) : AnnE :=
   match e.unstringE with
   | some r => r
@@ -527,5 +568,139 @@ with overloads, only the overloads' signatures — each its own; otherwise the f
 def displayed (f : Func) : List (List Token) :=
   if f.overloads ≠ [] then f.overloads.map (fun s => formatSignature (some s))
   else [formatSignature f.signature]
+
+/-! ### Which `def`s become documented functions: the decorator loop of `_handleFunctionDef`
+
+```
+if isinstance(parent, model.Function): raise SkipNode          # inner functions are ignored
+for d in node.decorator_list:
+    deco_name = node2dottedname(d.func if isinstance(d, ast.Call) else d)
+    if deco_name is None: continue
+    if isinstance(parent, model.Class):
+        if deco_name[-1].endswith('property') or deco_name[-1].endswith('Property'): is_property = True
+        elif deco_name == ['classmethod']: is_classmethod = True
+        elif deco_name == ['staticmethod']: is_staticmethod = True
+        elif len(deco_name) >= 2 and deco_name[-1] in ('setter', 'deleter'): func_name = '.'.join(deco_name[-2:])
+    if parent.expandName('.'.join(deco_name)) in ('typing.overload', 'typing_extensions.overload'):
+        is_overload_func = True
+if is_property: …_handlePropertyDef…; raise SkipNode
+```
+Name *resolution* (`expandName`) is the `Names` layer's business (C04): here it is the flag
+`resolvesToOverload` of each decorator; what this loop decides with it is modelled. -/
+
+inductive ParentKind | module | cls | func
+  deriving DecidableEq, Repr
+
+/-- one decorator: `node2dottedname` of the decorator (of its `.func` when it is a call) — `none` when
+it is not a dotted name; a dotted name always has at least one component — and whether that dotted
+name expands to `typing.overload` / `typing_extensions.overload` in the parent's scope. -/
+structure Deco where
+  dotted : Option (List Char × List (List Char))    -- first component, further components
+  resolvesToOverload : Bool
+  deriving DecidableEq, Repr
+
+/-- `str.endswith` -/
+def endsWith (s suffix : List Char) : Bool :=
+  suffix.length ≤ s.length && s.drop (s.length - suffix.length) == suffix
+
+/-- `'.'.join(parts)` -/
+def joinDot : List (List Char) → List Char
+  | [] => []
+  | [x] => x
+  | x :: y :: rest => x ++ '.' :: joinDot (y :: rest)
+
+/-- the strings the decorator loop and `format_function_def` compare against -/
+def sProperty : List Char := ['p','r','o','p','e','r','t','y']
+def sPropertyCap : List Char := ['P','r','o','p','e','r','t','y']
+def sClassmethod : List Char := ['c','l','a','s','s','m','e','t','h','o','d']
+def sStaticmethod : List Char := ['s','t','a','t','i','c','m','e','t','h','o','d']
+def sSetter : List Char := ['s','e','t','t','e','r']
+def sDeleter : List Char := ['d','e','l','e','t','e','r']
+def sDotSetter : List Char := '.' :: sSetter
+def sDotDeleter : List Char := '.' :: sDeleter
+
+structure DecoState where
+  isProperty : Bool
+  isClassmethod : Bool
+  isStaticmethod : Bool
+  isOverload : Bool
+  funcName : List Char
+  deriving DecidableEq, Repr
+
+def decoStep (parentIsClass : Bool) (st : DecoState) (d : Deco) : DecoState :=
+  match d.dotted with
+  | none => st
+  | some (first, more) =>
+    let comps := first :: more
+    let last := comps.getLastD first            -- deco_name[-1]
+    let st1 :=
+      if parentIsClass then
+        if endsWith last sProperty || endsWith last sPropertyCap then { st with isProperty := true }
+        else if comps = [sClassmethod] then { st with isClassmethod := true }
+        else if comps = [sStaticmethod] then { st with isStaticmethod := true }
+        else if comps.length ≥ 2 ∧ (last = sSetter ∨ last = sDeleter) then
+          { st with funcName := joinDot (comps.drop (comps.length - 2)) }   -- '.'.join(deco_name[-2:])
+        else st
+      else st
+    if d.resolvesToOverload then { st1 with isOverload := true } else st1
+
+inductive FuncKind | plain | staticMethod | classMethod
+  deriving DecidableEq, Repr
+
+/-- what `_handleFunctionDef` makes of a `def` statement -/
+inductive DefOutcome
+  | skippedInner                                   -- the parent is a function
+  | property (name : List Char)                    -- an Attribute of kind PROPERTY named `node.name`; no signature
+  | function (name : List Char) (kind : FuncKind) (isOverload : Bool)
+  deriving DecidableEq, Repr
+
+def handleDef (parent : ParentKind) (nodeName : List Char) (decos : List Deco) : DefOutcome :=
+  if parent = .func then .skippedInner
+  else
+    let st := decos.foldl (decoStep (parent = .cls))
+      { isProperty := false, isClassmethod := false, isStaticmethod := false, isOverload := false,
+        funcName := nodeName }
+    if st.isProperty then .property nodeName
+    else
+      let kind :=
+        if st.isStaticmethod then (if st.isClassmethod then .plain else .staticMethod)   -- both: reported, kind untouched
+        else if st.isClassmethod then .classMethod
+        else .plain
+      .function st.funcName kind st.isOverload
+
+/-! ### `pages.format_function_def` / `format_overloads` / `format_signature` with its fallbacks -/
+
+/-- `s.rindex('.')`; `none` = `ValueError` -/
+def rindexDot (s : List Char) : Option Nat :=
+  let i := s.reverse.findIdx (· == '.')
+  if i < s.length then some (s.length - 1 - i) else none
+
+/-- the name written after `def`: `func_name[:func_name.rindex('.')]` for `x.setter` / `x.deleter`. -/
+def shownName (funcName : List Char) : Option (List Char) :=
+  if endsWith funcName sDotSetter || endsWith funcName sDotDeleter then
+    (rindexDot funcName).map fun i => funcName.take i
+  else some funcName
+
+/-- `format_signature`: `"(...)"` when there is no signature, or when rendering it raises
+(`strRaises`: `str(func.signature)` / `html2stan` raised; an error is reported). -/
+def formatSignatureX (sig : Option Sig) (strRaises : Bool) : List Token :=
+  if strRaises then [.lparen, .ellipsis, .rparen] else formatSignature sig
+
+/-- one `def` line on the page: keyword, name, signature -/
+structure DefLine where
+  isAsync : Bool
+  name : List Char
+  sig : List Token
+  deriving DecidableEq, Repr
+
+/-- `format_function_def(func.name, func.is_async, func)` for a Function: nothing when it has overloads. -/
+def formatFunctionDef (funcName : List Char) (isAsync : Bool) (f : Func) : Option (List DefLine) :=
+  if f.overloads ≠ [] then some []
+  else (shownName funcName).map fun n => [{ isAsync := isAsync, name := n, sig := formatSignature f.signature }]
+
+/-- `format_overloads(func)`: one `def` line per overload, with the overload's own signature. -/
+def formatOverloads (funcName : List Char) (isAsync : Bool) (f : Func) : Option (List DefLine) :=
+  (shownName funcName).map fun n =>
+    f.overloads.map fun s => { isAsync := isAsync, name := n, sig := formatSignature (some s) }
 
 end Signature
